@@ -22,10 +22,13 @@ def run(repo, chk):
     chk.note_undecided('"wholly inside => placed unchanged" (shapely numerics)')
     R = Rules(repo, chk)
     refcheck.run_all(R, repo, chk, 'RECUR', 'assign_ref.py', WHAT)
+    refcheck.run_all(R, repo, chk, 'RECUR', 'geom_ref.py', {}, only=('resample_baselines', 'get_rotation', 'rotate_coords', 'retrace_region', 'le_ext_init'))
+    refcheck.run_all(R, repo, chk, 'RECUR', 'layoutdec_ref.py', {'baseline_to_textline': 'the outline handed to the assigner is built around the baseline'}, only=('baseline_to_textline',))
+    refcheck.run_all(R, repo, chk, 'RECUR', 'page_ref.py', {'rl_init': 'a new region starts without lines', 'tl_init': 'a new line keeps the id it was given'}, only=('rl_init', 'tl_init', 'lines_iterator'))
     R.run('ATOMS', atoms, repo, chk)
     R.run('PROV', prov, repo, Soft(chk), soft_for=[H + ':assign_lines_to_regions'])
     R.run('TYPESTATE', typestate, repo, chk)
-    chk.expect('RECUR', 6)
+    chk.expect('RECUR', 15)
     chk.expect('ATOMS', 5)
     chk.expect('PROV', 4)
     chk.expect('TYPESTATE', 3)
